@@ -5,7 +5,7 @@
  * key is kept masked under a fresh mask.  PBE, AES and the RNG are assumed (ghost answers). */
 #include "shared.h"
 CK_ULONG vp_in[VP_IN_N];
-unsigned char vp_in_dec[VP_DEC], vp_in_fin[VP_BLK], vp_in_rand[32], vp_in_masked0[32], vp_in_mask0[32];
+unsigned char vp_in_dec[VP_DEC], vp_in_fin[VP_BLK], vp_in_enc[32], vp_in_rand[32], vp_in_masked0[32], vp_in_mask0[32];
 CK_ULONG vp_out[VP_OUT_N];
 #define DECLEN (IN(declen) > VP_DEC ? VP_DEC : IN(declen))
 #define FINLEN (IN(finlen) > VP_BLK ? VP_BLK : IN(finlen))
@@ -16,10 +16,28 @@ static unsigned char clear_at(CK_ULONG k) { return k < DECLEN ? vp_in_dec[k < VP
 #define LOGIN_OK (IN(pbe_ok) && IN(dinit_ok) && IN(dupd_ok) && IN(dfin_ok) && MAGIC_OK)
 #define IS_LOGIN (IN(op) == 1 || IN(op) == 2)
 #define M0LEN (IN(masked0_len) > 32 ? 32 : IN(masked0_len))
+/* ---- PIN change (C04): setUserPIN (op 6) / setSOPIN (op 7) re-wrap THE SAME master key under the new PIN */
+#define IS_CIPHER (IN(op) == 4 || IN(op) == 5)
+#define IS_PIN (IN(op) == 6 || IN(op) == 7)
+#define BLOBLEN (IN(bloblen) > VP_DEC + 16 ? VP_DEC + 16 : IN(bloblen))
+#define PINLEN (IN(pinlen) > 4 ? 4 : IN(pinlen))
+#define BLANK (IN(op) == 7 && BLOBLEN == 0)
+#define PIN_GATE (PINLEN > 0 && (IN(op) == 6 ? (IN(so0) || IN(user0)) : (BLOBLEN == 0 || IN(so0))))
+#define REACH_KEY (PIN_GATE && IN(pbe_ok) && IN(einit_ok) && IN(eupd0_ok))
+#define PIN_OK (REACH_KEY && IN(eupd1_ok) && IN(efin_ok))
+#define KEYLEN (BLANK ? 32 : M0LEN)
+#define E0 (IN(enc0len) > VP_BLK ? VP_BLK : IN(enc0len))
+#define E1 (IN(enc1len) > 32 ? 32 : IN(enc1len))
+#define E2 (IN(enc2len) > VP_BLK ? VP_BLK : IN(enc2len))
+/* byte w of the master key before the call (a blank manager draws a new one from the RNG) */
+static CK_ULONG key0_at(CK_ULONG w) { return BLANK ? vp_in_rand[w < 32 ? w : 0] : (CK_ULONG)(vp_in_masked0[w < 32 ? w : 0] ^ vp_in_mask0[w < 32 ? w : 0]); }
+/* byte w of a freshly written blob: salt (8 RNG bytes) | IV (one block of RNG bytes) | the three cipher outputs */
+static CK_ULONG newblob_at(CK_ULONG w) { return w < 8 ? vp_in_rand[w] : w < 8 + VP_BLK ? vp_in_rand[w - 8] : w < 8 + VP_BLK + E0 ? vp_in_enc[(w - 8 - VP_BLK) % 32] : w < 8 + VP_BLK + E0 + E1 ? vp_in_enc[(w - 8 - VP_BLK - E0) % 32] : vp_in_enc[(w - 8 - VP_BLK - E0 - E1) % 32]; }
+#define NEWLEN (8 + VP_BLK + E0 + E1 + E2)
 static int out_zero(void) { for (int i = 0; i < VP_OUT_N; i++) if (vp_out[i] != 0) return 0; return 1; }
 
 void vp_sdm(void)
-__CPROVER_requires(IN(op) >= 1 && IN(op) <= 5 && out_zero() && TOTAL <= 35 + 3 && IN(inlen) <= 16)
+__CPROVER_requires(IN(op) >= 1 && IN(op) <= 7 && out_zero() && TOTAL <= 35 + 3 && IN(inlen) <= 16)
 /* ---- INVARIANT: never both, after every operation and from every state (even one that violates it) */
 __CPROVER_ensures((IN(op) <= 3) ==> !(OUT(so) && OUT(user)))
 __CPROVER_ensures((IN(op) >= 4) ==> (OUT(so) == (IN(so0) != 0 ? 1 : 0) && OUT(user) == (IN(user0) != 0 ? 1 : 0)))
@@ -37,12 +55,32 @@ __CPROVER_ensures((IS_LOGIN && OUT(ret) && IN(w) < TOTAL - 3 && IN(w) < 32) ==> 
 /* ---- logout */
 __CPROVER_ensures((IN(op) == 3) ==> (!OUT(so) && !OUT(user) && OUT(masked_len) == 0))
 /* ---- C01: the attribute cipher works only while somebody is logged in and a 256-bit master key is present */
-__CPROVER_ensures((IN(op) >= 4 && ((!IN(so0) && !IN(user0)) || M0LEN != 32)) ==> (!OUT(ret) && OUT(after_gate_n) == 0 && OUT(rng_n) == 0 && OUT(masked_len) == M0LEN))
+__CPROVER_ensures((IS_CIPHER && ((!IN(so0) && !IN(user0)) || M0LEN != 32)) ==> (!OUT(ret) && OUT(after_gate_n) == 0 && OUT(rng_n) == 0 && OUT(masked_len) == M0LEN))
 __CPROVER_ensures((IN(op) == 4 && (IN(so0) || IN(user0)) && M0LEN == 32 && IN(inlen) == 0) ==> (OUT(ret) && OUT(plain_len) == 0 && OUT(after_gate_n) == 0))
-__CPROVER_ensures((IN(op) >= 4 && OUT(after_gate_n) > 0) ==> ((IN(so0) || IN(user0)) && M0LEN == 32))
+__CPROVER_ensures((IS_CIPHER && OUT(after_gate_n) > 0) ==> ((IN(so0) || IN(user0)) && M0LEN == 32))
+/* ---- C04: PIN change.  Refused (nothing touched, nothing drawn, nothing derived) unless a non-empty PIN is given and the caller may
+ * change it: user PIN - SO or user logged in; SO PIN - SO logged in, or a blank manager (which then draws a new master key) */
+__CPROVER_ensures((IS_PIN && !PIN_GATE) ==> (!OUT(ret) && OUT(rng_n) == 0 && OUT(pbe_n) == 0 && OUT(eupd_n) == 0 && OUT(soblob_len) == BLOBLEN && OUT(userblob_len) == BLOBLEN && OUT(masked_len) == M0LEN))
+__CPROVER_ensures(IS_PIN ==> (OUT(ret) == (PIN_OK ? 1 : 0)))
+/* the key is derived from exactly the PIN given and a fresh 8-byte salt; CBC under a fresh one-block IV; the clear text is magic | key */
+__CPROVER_ensures((IS_PIN && PIN_GATE) ==> (OUT(pbe_n) == 1 && OUT(pbe_saltlen) == 8 && OUT(pbe_pinlen) == PINLEN))
+__CPROVER_ensures((IS_PIN && PIN_GATE && IN(pbe_ok)) ==> (OUT(einit_n) == 1 && OUT(einit_ivlen) == VP_BLK))
+__CPROVER_ensures((IS_PIN && PIN_GATE && IN(pbe_ok) && IN(einit_ok)) ==> (OUT(eupd_n) >= 1 && OUT(eupd0_magic) == 1))
+/* what is wrapped is THE master key: the one in memory before the call, byte for byte and in full length */
+__CPROVER_ensures((IS_PIN && REACH_KEY) ==> (OUT(eupd_n) == 2 && OUT(eupd1_len) == KEYLEN))
+__CPROVER_ensures((IS_PIN && REACH_KEY && IN(w) < KEYLEN) ==> (OUT(eupd1_w) == key0_at(IN(w))))
+/* ... and that key is still the one in memory afterwards, whatever the outcome (private objects stay readable) */
+__CPROVER_ensures((IS_PIN && !BLANK) ==> (OUT(masked_len) == M0LEN))
+__CPROVER_ensures((IS_PIN && !BLANK && IN(w) < M0LEN) ==> (OUT(unmasked_w) == key0_at(IN(w))))
+__CPROVER_ensures((IS_PIN && BLANK && PIN_GATE) ==> (OUT(masked_len) == 32 && (IN(w) >= 32 || OUT(unmasked_w) == key0_at(IN(w)))))
+/* the other user's blob is never touched; on success the addressed blob is salt | IV | cipher text */
+__CPROVER_ensures((IN(op) == 6) ==> (OUT(soblob_len) == BLOBLEN && (IN(w) >= BLOBLEN || OUT(soblob_w) == (IN(w) & 0xFF))))
+__CPROVER_ensures((IN(op) == 7) ==> (OUT(userblob_len) == BLOBLEN && (IN(w) >= BLOBLEN || OUT(userblob_w) == (IN(w) & 0xFF))))
+__CPROVER_ensures((IN(op) == 6 && OUT(ret)) ==> (OUT(userblob_len) == NEWLEN && (IN(w) >= NEWLEN || OUT(userblob_w) == newblob_at(IN(w)))))
+__CPROVER_ensures((IN(op) == 7 && OUT(ret)) ==> (OUT(soblob_len) == NEWLEN && (IN(w) >= NEWLEN || OUT(soblob_w) == newblob_at(IN(w)))))
 __CPROVER_assigns(__CPROVER_object_whole(vp_out));
 void vp_call_sdm(void) { vp_sdm(); }
-#define HAVOC __CPROVER_havoc_object(vp_in); __CPROVER_havoc_object(vp_in_dec); __CPROVER_havoc_object(vp_in_fin); __CPROVER_havoc_object(vp_in_rand); __CPROVER_havoc_object(vp_in_masked0); __CPROVER_havoc_object(vp_in_mask0)
+#define HAVOC __CPROVER_havoc_object(vp_in); __CPROVER_havoc_object(vp_in_enc); __CPROVER_havoc_object(vp_in_dec); __CPROVER_havoc_object(vp_in_fin); __CPROVER_havoc_object(vp_in_rand); __CPROVER_havoc_object(vp_in_masked0); __CPROVER_havoc_object(vp_in_mask0)
 void h_login(void)
 {
   HAVOC; IN(op) = IN(op) == 2 ? 2 : 1; vp_call_sdm();
@@ -52,4 +90,10 @@ void h_gate(void)
 {
   HAVOC; IN(op) = IN(op) == 3 ? 3 : IN(op) == 4 ? 4 : 5; vp_call_sdm();
   VP_COVER(IN(op) == 3 && IN(so0) && IN(user0)); VP_COVER(IN(op) == 4 && OUT(after_gate_n) == 1); VP_COVER(IN(op) == 5 && OUT(after_gate_n) == 1); VP_COVER(IN(op) == 5 && !OUT(ret) && IN(user0)); VP_COVER(IN(op) == 4 && OUT(ret) && IN(inlen) == 0);
+}
+void h_pin(void)
+{
+  HAVOC; IN(op) = IN(op) == 6 ? 6 : 7; vp_call_sdm();
+  VP_COVER(IN(op) == 6 && OUT(ret) && IN(user0) && !IN(so0) && M0LEN == 32); VP_COVER(IN(op) == 7 && OUT(ret) && BLANK); VP_COVER(IN(op) == 7 && OUT(ret) && !BLANK && NEWLEN == 52);
+  VP_COVER(IN(op) == 6 && !OUT(ret) && PIN_GATE && !IN(efin_ok)); VP_COVER(IN(op) == 7 && !PIN_GATE && PINLEN > 0); VP_COVER(IN(op) == 6 && !PIN_GATE && PINLEN == 0 && IN(user0));
 }
